@@ -52,5 +52,37 @@ func smoke(args []string) int {
 		}
 		fmt.Printf("h%d timeout notifications %v; status odd=%s normal=%s\n", res.Height, res.Meta.TimeoutCounter, model.StName[w.Status(a1+"-"+odd+"-1")], model.StName[w.Status(b1+"-"+c1+"-1")])
 	}
+	// a group whose source service id contains '-'
+	src := harness.FullID(harness.ChainA, "s-x")
+	keys := []string{b1, c1}
+	vals := []uint64{1, 1}
+	var txs []pb.Transaction
+	for i := range keys {
+		ib := harness.MkIBTP(src, keys[i], 1, pb.IBTP_INTERCHAIN, 2)
+		ib.Group = &pb.StringUint64Map{Keys: keys, Vals: vals}
+		txs = append(txs, w.IBTPTx(harness.User(0), ib, []byte("p")))
+	}
+	txs = append(txs, w.IBTPTx(harness.User(0), harness.MkIBTP(b1, c1, 2, pb.IBTP_INTERCHAIN, 2), []byte("p")))
+	res, err = w.Exec(txs...)
+	if err != nil {
+		fmt.Println("exec:", err)
+		return 1
+	}
+	for i, rc := range res.Receipts {
+		fmt.Printf("h%d tx%d: %v %.100s\n", res.Height, i, rc.Status, string(rc.Ret))
+	}
+	// one child succeeds
+	res, err = w.Exec(w.IBTPTx(harness.User(0), func() *pb.IBTP { ib := harness.MkIBTP(src, b1, 1, pb.IBTP_RECEIPT_SUCCESS, 0); ib.Group = &pb.StringUint64Map{Keys: keys, Vals: vals}; return ib }(), []byte("p")))
+	if err == nil {
+		fmt.Printf("h%d receipt: %v %.100s; notifications %v\n", res.Height, res.Receipts[0].Status, string(res.Receipts[0].Ret), res.Meta.TimeoutCounter)
+	}
+	for k := 0; k < 2; k++ {
+		res, err := w.Exec(w.Transfer(harness.User(1), harness.User(2).Addr, "1"))
+		if err != nil {
+			fmt.Println("exec:", err)
+			return 1
+		}
+		fmt.Printf("h%d timeout notifications %v; multi %v; status child=%s normal=%s\n", res.Height, res.Meta.TimeoutCounter, res.Meta.MultiTxCounter, model.StName[w.Status(src+"-"+b1+"-1")], model.StName[w.Status(b1+"-"+c1+"-2")])
+	}
 	return 0
 }
